@@ -20,3 +20,5 @@
 ; the log on disk holds at least one numbered record written since its last truncation (keeps the LSN high-water mark)
 ;@ghost hwm Bool
 ;@ghost logdur Bool
+;@ghost nlsnset Int
+;@ghost nfinal Int
